@@ -384,7 +384,8 @@ partial def blk (j : Json) : Except String Blk := do
     let o := a[2]!
     let opts : InOpts := { mapping := (o.getObjValAs? Bool "mapping").toOption.getD false,
                            noPush := (o.getObjValAs? Bool "noPush").toOption.getD false,
-                           prefix_ := (o.getObjValAs? String "prefix").toOption.map String.toList }
+                           prefix_ := (o.getObjValAs? String "prefix").toOption.map String.toList,
+                           skipUnauth := (o.getObjValAs? Bool "skip").toOption.getD false }
     return .in_ (← src a[1]!) opts (← blks a[3]!) (← optBlks a[4]!)
   | "with" => return .with_ (← src a[1]!) (← a[2]!.getBool?) (← a[3]!.getBool?) (← blks a[4]!)
   | "let" =>
@@ -467,11 +468,12 @@ def opRender (j : Json) : Except String Json := do
     let a ← d.getArr?
     return ((← a[0]!.getNat?), (← txt a[1]!))
   let guardOn := (j.getObjValAs? Bool "guard").toOption.getD false
+  let deniedItems := ((j.getObjValAs? (Array Nat) "deniedItems").toOption.getD #[]).toList
   let faults := ((j.getObjValAs? (Array Nat) "faults").toOption.getD #[]).toList
   let faultCls := ((j.getObjValAs? String "faultCls").toOption.getD "ValueError").toList
   let utf8 := (j.getObjValAs? Bool "utf8").toOption.getD true
   let env : Render.Env :=
-    { templates := tmpls, classes := classes, guardOn := guardOn, denied := denied, faults := faults,
+    { templates := tmpls, classes := classes, guardOn := guardOn, denied := denied, deniedItems := deniedItems, faults := faults,
       faultExc := ⟨faultCls, "fault".toList⟩, utf8 := utf8 }
   let main ← getNat j "main"
   let clients ← (← (← j.getObjVal? "clients").getArr?).toList.mapM val
